@@ -1,6 +1,6 @@
 (** Proofs about Model/Backup.v (property C20). *)
 From Coq Require Import List NArith Bool Lia.
-From DH Require Import Model.Backup.
+From DH Require Import Lib.CheckLib Model.Backup.
 Import ListNotations.
 Open Scope N_scope.
 
@@ -28,6 +28,20 @@ Proof.
       destruct (fname_eqb n n') eqn:E'; [apply fname_eqb_eq in E'; contradiction | reflexivity].
     + destruct (fname_eqb n0 n'); [reflexivity | exact IH].
 Qed.
+
+Lemma fs_get_remove_other f n n' : n <> n' -> fs_get (fs_remove f n) n' = fs_get f n'.
+Proof.
+  intros Hne. induction f as [|[n0 d0] f IH]; cbn; [reflexivity|].
+  destruct (fname_eqb n0 n) eqn:E; cbn.
+  - apply fname_eqb_eq in E; subst n0.
+    destruct (fname_eqb n n') eqn:E'; [apply fname_eqb_eq in E'; contradiction | reflexivity].
+  - destruct (fname_eqb n0 n'); [reflexivity | exact IH].
+Qed.
+
+Lemma bytes_eqb_eq a b : bytes_eqb a b = true <-> a = b.
+Proof. apply list_eqb_eq. intros; apply N.eqb_eq. Qed.
+Lemma bytes_eqb_refl a : bytes_eqb a a = true.
+Proof. now apply bytes_eqb_eq. Qed.
 
 (** ** versions *)
 Lemma maxv_app a b : maxv (a ++ b) = N.max (maxv a) (maxv b).
@@ -181,7 +195,8 @@ Proof.
   destruct (read_name_cases v) as [[-> _]|[-> _]]; now rewrite fs_get_set_other.
 Qed.
 
-Ltac fs_simpl := repeat (rewrite fs_get_set_same || (rewrite fs_get_set_other by discriminate)).
+Ltac fs_simpl := repeat (rewrite fs_get_set_same || (rewrite fs_get_set_other by discriminate)
+                         || (rewrite fs_get_remove_other by discriminate)).
 
 (** what DoNativeBackup does when an existing file is reopened for appending *)
 Lemma dnb_append v st : v_reopen v = MAppend -> kv_wf (s_fs st) ->
@@ -214,7 +229,7 @@ Lemma valid_location_fs st ok f1 : valid_location st = (ok, f1) ->
   fs_get f1 FKv = fs_get (s_fs st) FKv /\ fs_get f1 FSeen = fs_get (s_fs st) FSeen
   /\ fs_get f1 FSeenMgr = fs_get (s_fs st) FSeenMgr.
 Proof.
-  unfold valid_location. destruct (fs_get (s_fs st) FStorageId) as [[l|b]|]; intros [= <- <-]; auto.
+  unfold valid_location. destruct (fs_get (s_fs st) FStorageId) as [[l|b|b]|]; intros [= <- <-]; auto.
   rewrite !fs_get_set_other by discriminate. auto.
 Qed.
 
@@ -260,13 +275,29 @@ Proof.
       * apply incl_refl.
   - (* refused: only isRunning changes *)
     assert (f1 = s_fs st).
-    { unfold valid_location in V. destruct (fs_get (s_fs st) FStorageId) as [[l|b]|]; now inversion V. }
+    { unfold valid_location in V. destruct (fs_get (s_fs st) FStorageId) as [[l|b|b]|]; now inversion V. }
     subst f1. destruct I; constructor; assumption.
+Qed.
+
+(** the environment only touches the id file: nothing the invariant talks about *)
+Lemma Inv_idfile v st f' :
+  fs_get f' FKv = fs_get (s_fs st) FKv -> fs_get f' FSeen = fs_get (s_fs st) FSeen ->
+  fs_get f' FSeenMgr = fs_get (s_fs st) FSeenMgr -> Inv v st -> Inv v (with_fs st f').
+Proof.
+  intros Hk Hs Hm I.
+  assert (Kf : kvfile f' = kvfile (s_fs st)) by (unfold kvfile; now rewrite Hk).
+  assert (Lf : load_last_id v f' = load_last_id v (s_fs st)).
+  { unfold load_last_id. destruct (read_name_cases v) as [[-> _]|[-> _]]; now rewrite ?Hs, ?Hm. }
+  destruct I as [U P W Hi Hc Hd Hsn].
+  constructor; cbn [with_fs s_src s_fs s_cursor s_snap]; rewrite ?Kf, ?Lf; auto.
+  - unfold kv_wf. now rewrite Hk.
+  - intros s E. rewrite Hk. now apply Hsn.
 Qed.
 
 Lemma Inv_step v st o : v_reopen v = MAppend -> Inv v st -> Inv v (fst (step v st o)).
 Proof.
-  intros Hm I. destruct o as [m ds k x del| |m]; cbn [step].
+  intros Hm I. destruct o as [m ds k x del| |m|b|]; cbn [step];
+    [ | | | cbn [fst]; apply Inv_idfile; fs_simpl; auto | cbn [fst]; apply Inv_idfile; fs_simpl; auto].
   - cbn [fst]. destruct I as [U P W Hi Hc Hd Hs].
     constructor; cbn [s_src s_fs s_cursor s_snap].
     + now apply uniq_put.
@@ -338,11 +369,11 @@ Proof. revert st. induction a as [|o a IH]; cbn; intros; [reflexivity | apply IH
 (** the location is ours (or still unclaimed) and no run is stuck *)
 Definition ours (st : state) : Prop :=
   s_running st = false /\
-  (fs_get (s_fs st) FStorageId = None \/ fs_get (s_fs st) FStorageId = Some (DNum (s_store_id st))).
+  (fs_get (s_fs st) FStorageId = None \/ fs_get (s_fs st) FStorageId = Some (DBytes (s_store_id st))).
 
 Lemma ours_valid st : ours st -> fst (valid_location st) = true.
 Proof.
-  intros [_ [H|H]]; unfold valid_location; rewrite H; cbn; [reflexivity | apply N.eqb_refl].
+  intros [_ [H|H]]; unfold valid_location; rewrite H; cbn; [reflexivity | apply bytes_eqb_refl].
 Qed.
 
 Lemma dnb_frame v st : 
@@ -353,13 +384,13 @@ Proof.
   unfold do_native_backup, badger_backup, store_last_id, fs_open, fs_write_entries. cbv zeta.
   destruct (file_exists (s_fs st) FKv); destruct (v_reopen v);
   destruct (filter _ (s_src st)); cbn [s_fs s_store_id s_src];
-  repeat match goal with |- context [match fs_get ?f ?n with _ => _ end] => destruct (fs_get f n) as [[?|?]|] end;
+  repeat match goal with |- context [match fs_get ?f ?n with _ => _ end] => destruct (fs_get f n) as [[?|?|?]|] end;
   cbn [s_fs s_store_id s_src]; repeat split; fs_simpl; reflexivity.
 Qed.
 
-Lemma ours_step v st o : ours st -> ours (fst (step v st o)).
+Lemma ours_step v st o : is_env o = false -> ours st -> ours (fst (step v st o)).
 Proof.
-  intros O. destruct o as [m ds k x del| |m]; cbn [step fst].
+  intros He O. destruct o as [m ds k x del| |m|b|]; try discriminate He; cbn [step fst].
   - exact O.
   - unfold run_backup. destruct O as [Hr Hid]. rewrite Hr.
     pose proof (ours_valid st (conj Hr Hid)) as Hv.
@@ -368,12 +399,16 @@ Proof.
     split; cbn [s_running s_fs s_store_id]; [reflexivity|]. rewrite F1, F2.
     right. unfold valid_location in V. destruct Hid as [H|H]; rewrite H in V.
     + injection V as <-. now rewrite fs_get_set_same.
-    + rewrite N.eqb_refl in V. injection V as <-. exact H.
+    + rewrite bytes_eqb_refl in V. injection V as <-. exact H.
   - destruct O as [_ Hid]. split; [reflexivity | exact Hid].
 Qed.
 
-Lemma ours_run v ops : forall st, ours st -> ours (run v ops st).
-Proof. induction ops as [|o ops IH]; cbn [run]; intros st O; [exact O | apply IH, ours_step, O]. Qed.
+Lemma ours_run v ops : forallb (fun o => negb (is_env o)) ops = true -> forall st, ours st -> ours (run v ops st).
+Proof.
+  induction ops as [|o ops IH]; cbn [run forallb]; intros H st O; [exact O|].
+  apply andb_true_iff in H. destruct H as [Ho H]. apply (IH H), ours_step; [|exact O].
+  now destruct (is_env o).
+Qed.
 
 Lemma ours_init v m0 sid : ours (init v m0 sid []).
 Proof. split; [reflexivity | now left]. Qed.
@@ -394,49 +429,54 @@ Qed.
 
 Theorem restore_append_explicit : forall v m0 sid h1 h2,
   v_reopen v = MAppend ->
+  forallb (fun o => negb (is_env o)) h1 = true ->
   forallb (fun o => negb (is_backup o)) h2 = true ->
   let st1 := run v h1 (init v m0 sid []) in
   let st := run v (h1 ++ OBackup :: h2) (init v m0 sid []) in
   exists file, fs_get (s_fs st) FKv = Some (DEntries file) /\
                forall ds k, latest ds k (badger_load file) = latest ds k (s_src st1).
 Proof.
-  intros v m0 sid h1 h2 Hm Hnb st1 st.
+  intros v m0 sid h1 h2 Hm Hne Hnb st1 st.
   assert (R : restore_ok st) by (apply restore_append; assumption).
   apply R. subst st. rewrite run_app. cbn [run step]. rewrite (snap_no_backup v h2 Hnb).
-  apply backup_returns. apply ours_run, ours_init.
+  apply backup_returns. apply ours_run; [assumption | apply ours_init].
 Qed.
 
 (** ** C20_foreign: a location that carries another store's id is never written (any variant) *)
 Definition foreign (st : state) : Prop :=
-  exists b, fs_get (s_fs st) FStorageId = Some (DNum b) /\ b <> s_store_id st.
+  exists b, fs_get (s_fs st) FStorageId = Some (DBytes b) /\ b <> s_store_id st.
 
-Lemma foreign_step v st o : foreign st ->
+Lemma foreign_step v st o : is_env o = false -> foreign st ->
   s_fs (fst (step v st o)) = s_fs st /\ s_store_id (fst (step v st o)) = s_store_id st
   /\ s_snap (fst (step v st o)) = s_snap st /\ snd (step v st o) <> R_RETURNED.
 Proof.
-  intros (b & Hb & Hne). destruct o as [m ds k x del| |m]; cbn [step fst snd s_fs s_store_id s_snap];
-    try (repeat split; [discriminate]).
+  intros He (b & Hb & Hne). destruct o as [m ds k x del| |m|b'|]; try discriminate He;
+    cbn [step fst snd s_fs s_store_id s_snap]; try (repeat split; [discriminate]).
   unfold run_backup. destruct (s_running st); [repeat split; discriminate|].
   unfold valid_location. rewrite Hb.
-  destruct (b =? s_store_id st) eqn:E; [apply N.eqb_eq in E; contradiction|].
+  destruct (bytes_eqb (s_store_id st) b) eqn:E; [apply bytes_eqb_eq in E; congruence|].
   cbn. repeat split; discriminate.
 Qed.
 
-Theorem foreign_never_written : forall v ops st, foreign st ->
+Theorem foreign_never_written : forall v ops st,
+  forallb (fun o => negb (is_env o)) ops = true -> foreign st ->
   s_fs (run v ops st) = s_fs st /\ s_snap (run v ops st) = s_snap st.
 Proof.
-  intros v ops. induction ops as [|o ops IH]; cbn [run]; intros st F; [now split|].
-  destruct (foreign_step v st o F) as (A & B & C & _).
+  intros v ops. induction ops as [|o ops IH]; cbn [run forallb]; intros st He F; [now split|].
+  apply andb_true_iff in He. destruct He as [Ho He].
+  assert (Ho' : is_env o = false) by now destruct (is_env o).
+  destruct (foreign_step v st o Ho' F) as (A & B & C & _).
   assert (F' : foreign (fst (step v st o))).
   { destruct F as (b & Hb & Hne). exists b. now rewrite A, B. }
-  destruct (IH _ F') as [H1 H2]. now rewrite H1, H2, A, C.
+  destruct (IH _ He F') as [H1 H2]. now rewrite H1, H2, A, C.
 Qed.
 
 (** ** what the pinned tree does: the file is frozen after the run that created it *)
 Lemma readonly_frozen_step v st o X : v_reopen v = MRead ->
   fs_get (s_fs st) FKv = Some (DEntries X) -> fs_get (s_fs (fst (step v st o))) FKv = Some (DEntries X).
 Proof.
-  intros Hm Hx. destruct o as [m ds k x del| |m]; cbn [step fst s_fs]; try exact Hx.
+  intros Hm Hx. destruct o as [m ds k x del| |m|b|]; cbn [step fst s_fs with_fs]; try exact Hx;
+    [|fs_simpl; exact Hx|fs_simpl; exact Hx].
   unfold run_backup. destruct (s_running st); [exact Hx|].
   destruct (valid_location st) as [ok f1] eqn:V.
   destruct (valid_location_fs _ _ _ V) as (Vk & _ & _).
@@ -457,7 +497,7 @@ Qed.
 Definition pristine (st : state) : Prop :=
   s_fs st = [] /\ s_cursor st = 0 /\ s_running st = false /\ allpos (s_src st).
 
-Lemma pristine_run v ops : forallb (fun o => negb (is_backup o)) ops = true ->
+Lemma pristine_run v ops : forallb (fun o => negb (is_backup o) && negb (is_env o)) ops = true ->
   forall st, pristine st -> pristine (run v ops st).
 Proof.
   induction ops as [|o ops IH]; cbn [run forallb]; intros H st P; [exact P|].
@@ -491,7 +531,7 @@ Qed.
 
 Theorem readonly_keeps_first : forall v m0 sid h1 h2,
   v_reopen v = MRead ->
-  forallb (fun o => negb (is_backup o)) h1 = true ->
+  forallb (fun o => negb (is_backup o) && negb (is_env o)) h1 = true ->
   let st1 := run v h1 (init v m0 sid []) in
   let st := run v (h1 ++ OBackup :: h2) (init v m0 sid []) in
   fs_get (s_fs st) FKv = Some (DEntries (s_src st1)).
@@ -507,7 +547,9 @@ Lemma cursor_on_disk_step v st o : v_name v = NameSame ->
   s_cursor st = load_last_id v (s_fs st) ->
   s_cursor (fst (step v st o)) = load_last_id v (s_fs (fst (step v st o))).
 Proof.
-  intros Hn H. destruct o as [m ds k x del| |m]; cbn [step fst s_cursor s_fs]; auto.
+  intros Hn H. destruct o as [m ds k x del| |m|b|]; cbn [step fst s_cursor s_fs with_fs]; auto;
+    [|rewrite H; unfold load_last_id, read_name; rewrite Hn; now fs_simpl
+     |rewrite H; unfold load_last_id, read_name; rewrite Hn; now fs_simpl].
   unfold run_backup. destruct (s_running st); [exact H|].
   destruct (valid_location st) as [ok f1] eqn:V.
   destruct (valid_location_fs _ _ _ V) as (_ & Vs & _).
@@ -534,13 +576,13 @@ Definition wit_a : list op := [OWrite 24 0 1 3 false; OBackup; OWrite 31 0 2 4 f
 (** finding F20b *)
 Definition wit_b : list op := [OWrite 24 0 1 3 false; OBackup; ORestart 26].
 
-Lemma refuted_readonly_reopen : ~ restore_ok (run current wit_a (init current 10 1 [])).
+Lemma refuted_readonly_reopen : ~ restore_ok (run current wit_a (init current 10 [49] [])).
 Proof.
   intros H. destruct (H _ eq_refl) as (file & Hf & Hl).
   vm_compute in Hf. injection Hf as <-. specialize (Hl 0 2). vm_compute in Hl. discriminate.
 Qed.
 
-Lemma refuted_readonly_reopen_name_only : ~ restore_ok (run name_only wit_a (init name_only 10 1 [])).
+Lemma refuted_readonly_reopen_name_only : ~ restore_ok (run name_only wit_a (init name_only 10 [49] [])).
 Proof.
   intros H. destruct (H _ eq_refl) as (file & Hf & Hl).
   vm_compute in Hf. injection Hf as <-. specialize (Hl 0 2). vm_compute in Hl. discriminate.
@@ -548,7 +590,7 @@ Qed.
 
 (** the second run wrote nothing and reset the cursor (in memory and on disk) to 0 *)
 Lemma readonly_second_run :
-  let st := run current wit_a (init current 10 1 []) in
+  let st := run current wit_a (init current 10 [49] []) in
   kvfile (s_fs st) = [{| e_ver := 10; e_ds := sys_ds; e_id := 0; e_val := 10; e_del := false |};
                       {| e_ver := 24; e_ds := 0; e_id := 1; e_val := 3; e_del := false |}]
   /\ s_cursor st = 0 /\ seen_file (s_fs st) = Some 0.
@@ -556,23 +598,23 @@ Proof. vm_compute. repeat split; reflexivity. Qed.
 
 (** the cursor is written (24) but a restart reads another file name and gets 0 *)
 Lemma refuted_cursor_filename :
-  let st := run current wit_b (init current 10 1 []) in
+  let st := run current wit_b (init current 10 [49] []) in
   seen_file (s_fs st) = Some 24 /\ s_cursor st = 0.
 Proof. vm_compute. split; reflexivity. Qed.
 
 Lemma refuted_cursor_filename_append_only :
-  let st := run append_only wit_b (init append_only 10 1 []) in
+  let st := run append_only wit_b (init append_only 10 [49] []) in
   seen_file (s_fs st) = Some 24 /\ s_cursor st = 0.
 Proof. vm_compute. split; reflexivity. Qed.
 
 Lemma fixed_cursor_reloaded :
-  let st := run fixed wit_b (init fixed 10 1 []) in
+  let st := run fixed wit_b (init fixed 10 [49] []) in
   seen_file (s_fs st) = Some 24 /\ s_cursor st = 24.
 Proof. vm_compute. split; reflexivity. Qed.
 
 (** the other obvious repair - always os.Create - is wrong as soon as the cursor works *)
 Definition truncating : variant := {| v_reopen := MCreate; v_name := NameSame |}.
-Lemma refuted_truncate : ~ restore_ok (run truncating wit_a (init truncating 10 1 [])).
+Lemma refuted_truncate : ~ restore_ok (run truncating wit_a (init truncating 10 [49] [])).
 Proof.
   intros H. destruct (H _ eq_refl) as (file & Hf & Hl).
   vm_compute in Hf. injection Hf as <-. specialize (Hl 0 1). vm_compute in Hl. discriminate.
@@ -582,7 +624,7 @@ Qed.
     between the first run and the last returned run *)
 Theorem readonly_restore_iff : forall v m0 sid h1 h2,
   v_reopen v = MRead ->
-  forallb (fun o => negb (is_backup o)) h1 = true ->
+  forallb (fun o => negb (is_backup o) && negb (is_env o)) h1 = true ->
   let st1 := run v h1 (init v m0 sid []) in
   let st := run v (h1 ++ OBackup :: h2) (init v m0 sid []) in
   restore_ok st <->
